@@ -4,6 +4,7 @@ import (
 	"bytes"
 	"encoding/json"
 	"fmt"
+	"regexp"
 	"strings"
 	"time"
 
@@ -361,6 +362,9 @@ func c05Identity(text string) (string, error, interface{}) {
 
 // c05Check returns (kind, detail); kind "" = holds, "unsure" = the generator's own rendering is not what it thinks.
 func c05Check(cs c05Case) (kind, detail string) {
+	if strings.HasPrefix(cs.Stream, "fully-decorated:") {
+		return c05Full(fromJSONText(cs.Shape), strings.TrimPrefix(cs.Stream, "fully-decorated:"))
+	}
 	docs, text, ok := cs.build()
 	if !ok {
 		return "skip", ""
@@ -427,6 +431,63 @@ func c05Check(cs c05Case) (kind, detail string) {
 	return "", ""
 }
 
+// c05Full: identity on a fully decorated document; judged on the text (every generated comment is unique).
+func c05Full(sh *val.V, deco string) (kind, detail string) {
+	text := c07Decorate(sh, deco)
+	if nodes, err := c05Nodes(text); err != nil || len(nodes) != 1 {
+		return "", "" // not a valid document (e.g. the aliases variant on a shape without a scalar to anchor): nothing to judge
+	}
+	out, yerr, pan := c05Identity(text)
+	if pan != nil {
+		return "panic", fmt.Sprintf("%v on\n%s", pan, text)
+	}
+	if yerr != nil {
+		return "rejected", fmt.Sprintf("yq rejects a valid stream: %v\n%s", yerr, text)
+	}
+	comments := func(t string) []string {
+		var l []string
+		for _, ln := range strings.Split(t, "\n") {
+			if i := strings.Index(ln, "# "); i >= 0 {
+				l = append(l, strings.TrimSpace(ln[i:]))
+			}
+		}
+		return l
+	}
+	in, got := comments(text), comments(out)
+	count := map[string]int{}
+	for _, cm := range got {
+		count[cm]++
+	}
+	for _, cm := range in {
+		if count[cm] != 1 {
+			return "comment-lost", fmt.Sprintf("comment %q occurs %d times in the output\noutput:\n%s--- input:\n%s", cm, count[cm], out, text)
+		}
+	}
+	if strings.Join(in, "\n") != strings.Join(got, "\n") {
+		i := 0
+		for i < len(in) && i < len(got) && in[i] == got[i] {
+			i++
+		}
+		return "comment-moved", fmt.Sprintf("comments are no longer in their order: the output has %q where the input has %q\noutput:\n%s--- input:\n%s", got[i], in[i], out, text)
+	}
+	inNodes, err1 := c05Nodes(text)
+	outNodes, err2 := c05Nodes(out)
+	if err1 != nil || len(inNodes) != 1 {
+		return "", "" // generator text unreadable for the independent reader: nothing to compare
+	}
+	if err2 != nil || len(outNodes) != 1 {
+		return "output-invalid", fmt.Sprintf("output is not one valid YAML document (%v):\n%s--- from input\n%s", err2, out, text)
+	}
+	if w, g := c05NodeToV(inNodes[0], 0).String(), c05NodeToV(outNodes[0], 0).String(); w != g {
+		return "data", fmt.Sprintf("reads %s, was %s\noutput:\n%s--- input:\n%s", g, w, out, text)
+	}
+	out2, err3, pan3 := c05Identity(out)
+	if pan3 != nil || err3 != nil || out2 != out {
+		return "not-idempotent", fmt.Sprintf("second pass differs (%v %v)\nfirst:\n%ssecond:\n%s", err3, pan3, out, out2)
+	}
+	return "", ""
+}
+
 func c05Tag(kind string, rootScalar bool) string {
 	if rootScalar {
 		return kind + "/root=scalar"
@@ -443,7 +504,7 @@ func c05Run(c *fw.Ctx) error {
 	}
 	maxDeco := 2
 	streams := []string{"", "explicit-start", "lead-comment", "lead-comment-start", "two-docs", "three-docs", "bom-lead-comment", "indented-lead-comment", "huge-lead-comment"}
-	c.Res.Bound = fmt.Sprintf("%d shapes (all of <= %d content nodes over 3 scalars and 2 keys, plus 4 deeper ones) x every set of <= %d decorations (5 scalar styles, %d hazard texts, tags, anchor+alias, head/line/foot comments, flow) x 8 stream forms at <= 1 decoration (explicit start, header comment block with and without a byte order mark or indentation, two and three documents) (plus a 70 KiB header line on every shape)", len(shapes), n, maxDeco, len(c05Texts))
+	c.Res.Bound = fmt.Sprintf("%d shapes (all of <= %d content nodes over 3 scalars and 2 keys, plus 4 deeper ones) x every set of <= %d decorations (5 scalar styles, %d hazard texts, tags, anchor+alias, head/line/foot comments, flow) x 8 stream forms at <= 1 decoration (explicit start, header comment block with and without a byte order mark or indentation, two and three documents) (plus a 70 KiB header line on every shape); plus the fully decorated documents of C07 (every container shape of <= %d nodes x 3 decoration variants)", len(shapes), n, maxDeco, len(c05Texts), map[bool]int{false: 4, true: 5}[c.Thorough()])
 	var idx int64
 	run := func(cs c05Case, order int64) {
 		idx++
@@ -501,6 +562,42 @@ func c05Run(c *fw.Ctx) error {
 			sig = kind // one root cause: a root-level scalar is printed unwrapped
 		}
 		c.Violation(sig, order, cs, detail)
+	}
+	// fully decorated documents (the generator of C07: a comment on every key, item and scalar, foot comments stacked behind nested
+	// collections, three variants): the identity must keep every comment once and in order, keep the data and be idempotent
+	fn := 4
+	if c.Thorough() {
+		fn = 5
+	}
+	var fullShapes []*val.V
+	for _, d := range val.Universe(fn, []*val.V{val.IntV(1), val.StrV("a")}, []string{"k", "m"}) {
+		if d.K == val.Seq || d.K == val.Map {
+			fullShapes = append(fullShapes, d)
+		}
+	}
+	for fi, sh := range fullShapes {
+		for _, deco := range []string{"", "foots", "aliases"} {
+			idx++
+			if !c.Mine(idx) || c.Expired() {
+				continue
+			}
+			kind, detail := c05Full(sh, deco)
+			c.Eval(1)
+			c.Validated(1)
+			key := "full|" + sh.JSON() + "|" + deco
+			c.Nontrivial(key)
+			if kind == "" {
+				c.Outcome(key)
+				continue
+			}
+			c.Count("mismatch_full_"+kind, 1)
+			// signature: clause, variant, and the kind of the comment affected ("foot after", "head of", "line of" ...)
+			cls := ""
+			if m := regexp.MustCompile(`"# (\w+ \w+)`).FindStringSubmatch(detail); m != nil && strings.HasPrefix(kind, "comment-") {
+				cls = "/" + strings.ReplaceAll(m[1], " ", "-")
+			}
+			c.Violation(fmt.Sprintf("%s/fully-decorated/%s%s", kind, deco, cls), 5e6+int64(sh.Size())*1e4+int64(fi), c05Case{Shape: sh.JSON(), Stream: "fully-decorated:" + deco}, detail)
+		}
 	}
 	for si, sh := range shapes {
 		shape := sh.JSON()
